@@ -28,7 +28,11 @@ import (
 	"math/big"
 	"math/rand/v2"
 	"os"
+	"strconv"
 	"strings"
+	"sync"
+	"syscall"
+	"time"
 
 	"github.com/consensys/gnark-crypto/ecc"
 	gcbls "github.com/consensys/gnark-crypto/ecc/bls12-381"
@@ -406,12 +410,48 @@ func blsNative(c *blsCase) (v blsVerdict, P []gcbls.G1Affine, Q []gcbls.G2Affine
 	return
 }
 
-func execBls(raw json.RawMessage) outcome {
-	var c blsCase
-	if err := json.Unmarshal(raw, &c); err != nil {
+// blsBatch: the cases of one pool task.  A worker process pays several seconds
+// of one-time initialisation for the first BLS12-381 curve / pairing gadget it
+// executes (gnark's parameter tables and friends); the cases are cheap next to
+// it (0.01–3 s), so they travel in batches by gadget instead of being spread one
+// by one over all the workers.
+type blsBatch struct {
+	Cases []*blsCase
+}
+
+func execBlsBatch(raw json.RawMessage) outcome {
+	var b blsBatch
+	if err := json.Unmarshal(raw, &b); err != nil {
 		return outcome{Err: "decode: " + err.Error()}
 	}
-	v, P, Q, acc, exp := blsNative(&c)
+	outs := make([]outcome, len(b.Cases))
+	cpu0 := processCPUms()
+	for i, c := range b.Cases {
+		t0 := time.Now()
+		if p, st := vcore.Catch(func() { outs[i] = execBls(c) }); p != nil {
+			outs[i] = outcome{Panic: fmt.Sprintf("%v\n%s", p, st)}
+		}
+		outs[i].Ms = time.Since(t0).Milliseconds()
+	}
+	j, err := json.Marshal(outs)
+	if err != nil {
+		return outcome{Err: "harness: batch answer: " + err.Error()}
+	}
+	return outcome{Sat: true, Vals: map[string]string{"batch": string(j), "cpu_ms": fmt.Sprint(processCPUms() - cpu0)}}
+}
+
+// processCPUms: user + system time of this worker process (all threads), the
+// measure of what a batch costs on a shared machine (wall time is not).
+func processCPUms() int64 {
+	var ru syscall.Rusage
+	if err := syscall.Getrusage(syscall.RUSAGE_SELF, &ru); err != nil {
+		return 0
+	}
+	return (ru.Utime.Sec+ru.Stime.Sec)*1000 + int64(ru.Utime.Usec+ru.Stime.Usec)/1000
+}
+
+func execBls(c *blsCase) outcome {
+	v, P, Q, acc, exp := blsNative(c)
 	if v.err != "" {
 		return outcome{Err: v.err}
 	}
@@ -485,7 +525,7 @@ func execBls(raw json.RawMessage) outcome {
 	return o
 }
 
-func init() { executors["evmbls"] = execBls }
+func init() { executors["evmbls"] = execBlsBatch }
 
 // ---------------------------------------------------------------- case lists
 
@@ -790,21 +830,21 @@ func genBls(rng *rand.Rand, quick bool) []*blsCase {
 		ks     []*big.Int
 		domain string
 	}{
-		{q, th, "n=1,s=random", pts(P1), pts(Q1), []*big.Int{rs()}, "in"},
+		{th, th, "n=1,s=random", pts(P1), pts(Q1), []*big.Int{rs()}, "in"},
 		{q, q, "n=1,s=0", pts(P1), pts(Q1), []*big.Int{bi(0)}, "in"},
-		{q, q, "n=1,s=1", pts(P1), pts(Q1), []*big.Int{one}, "in"},
+		{th, th, "n=1,s=1", pts(P1), pts(Q1), []*big.Int{one}, "in"},
 		{th, th, "n=1,s=2", pts(P1), pts(Q1), []*big.Int{bi(2)}, "in"},
-		{q, q, "n=1,s=r-1", pts(P1), pts(Q1), []*big.Int{rm1}, "in"},
-		{q, th, "n=1,s=r", pts(P1), pts(Q1), []*big.Int{r}, "in"},
+		{q, th, "n=1,s=r-1", pts(P1), pts(Q1), []*big.Int{rm1}, "in"},
+		{th, th, "n=1,s=r", pts(P1), pts(Q1), []*big.Int{r}, "in"},
 		{th, th, "n=1,s=r+1", pts(P1), pts(Q1), []*big.Int{new(big.Int).Add(r, one)}, "in"},
 		{q, th, "n=1,s=r+random", pts(P1), pts(Q1), []*big.Int{new(big.Int).Add(r, randBelow(rng, new(big.Int).Sub(top, r)))}, "in"},
-		{th, q, "n=1,s=2^255-1", pts(P1), pts(Q1), []*big.Int{top}, "in"},
+		{th, th, "n=1,s=2^255-1", pts(P1), pts(Q1), []*big.Int{top}, "in"},
 		{th, th, "n=1,P=generator,s=random", pts(g.g1(one)), pts(g.g2(one)), []*big.Int{rs()}, "in"},
 		{q, q, "n=2,random", pts(P1, P2), pts(Q1, Q2), []*big.Int{rs(), rs()}, "in"},
-		{q, th, "n=2,s=(0,random)", pts(P1, P2), pts(Q1, Q2), []*big.Int{bi(0), rs()}, "in"},
+		{th, th, "n=2,s=(0,random)", pts(P1, P2), pts(Q1, Q2), []*big.Int{bi(0), rs()}, "in"},
 		{th, th, "n=2,s=(random,0)", pts(P1, P2), pts(Q1, Q2), []*big.Int{rs(), bi(0)}, "in"},
 		{th, th, "n=2,s=(0,0)", pts(P1, P2), pts(Q1, Q2), []*big.Int{bi(0), bi(0)}, "in"},
-		{th, q, "n=2,P1=P0,s1=s0(terms-equal)", pts(P1, P1), pts(Q1, Q1), []*big.Int{a2, a2}, "in"},
+		{th, th, "n=2,P1=P0,s1=s0(terms-equal)", pts(P1, P1), pts(Q1, Q1), []*big.Int{a2, a2}, "in"},
 		{q, th, "n=2,P1=P0,s1=-s0(sum=infinity)", pts(P1, P1), pts(Q1, Q1), []*big.Int{a2, neg(a2)}, "in"},
 		{th, th, "n=2,P1=-P0,s1=s0(sum=infinity)", pts(P1, negG1(P1)), pts(Q1, negG2(Q1)), []*big.Int{a2, a2}, "in"},
 		{th, th, "n=2,s=(r,r+1)", pts(P1, P2), pts(Q1, Q2), []*big.Int{r, new(big.Int).Add(r, one)}, "in"},
@@ -817,9 +857,9 @@ func genBls(rng *rand.Rand, quick bool) []*blsCase {
 		{th, th, "n=1,point-outside-subgroup,s=r(must-reject)", pts(N1), pts(T1), []*big.Int{r}, "in"},
 		{th, th, "n=1,point-outside-subgroup,s=0(must-reject)", pts(N1), pts(T1), []*big.Int{bi(0)}, "in"},
 		{th, th, "n=1,low-order-point(must-reject)", pts(L1), pts(L2), []*big.Int{rs()}, "in"},
-		{q, th, "n=1,off-curve-point(must-reject)", pts(offCurveG1(P1)), pts(offTwistG2(Q1)), []*big.Int{rs()}, "in"},
-		{q, q, "n=1,scaled-subgroup-point(4x,8y)-off-curve(must-reject)", pts(S1), pts(S2), []*big.Int{rs()}, "in"},
-		{q, q, "n=1,P=infinity(0,0)", pts(infG1()), pts(infG2()), []*big.Int{rs()}, "silent"},
+		{th, th, "n=1,off-curve-point(must-reject)", pts(offCurveG1(P1)), pts(offTwistG2(Q1)), []*big.Int{rs()}, "in"},
+		{th, th, "n=1,scaled-subgroup-point(4x,8y)-off-curve(must-reject)", pts(S1), pts(S2), []*big.Int{rs()}, "in"},
+		{q, th, "n=1,P=infinity(0,0)", pts(infG1()), pts(infG2()), []*big.Int{rs()}, "silent"},
 		{th, th, "n=2,P0=infinity(0,0)", pts(infG1(), P1), pts(infG2(), Q1), []*big.Int{rs(), rs()}, "silent"},
 	} {
 		m := m
@@ -837,8 +877,8 @@ func genBls(rng *rand.Rand, quick bool) []*blsCase {
 		u      []*big.Int
 	}{
 		{q, q, "u=0", []*big.Int{bi(0), bi(0)}},
-		{q, q, "u=1", []*big.Int{one, bi(0)}},
-		{q, q, "u=p-1", []*big.Int{pm1, pm1}},
+		{q, th, "u=1", []*big.Int{one, bi(0)}},
+		{q, th, "u=p-1", []*big.Int{pm1, pm1}},
 		{q, q, "u=random", []*big.Int{ru(), ru()}},
 		{th, th, "u=2", []*big.Int{bi(2), bi(0)}},
 		{th, th, "u=(p-1)/2", []*big.Int{new(big.Int).Rsh(pm1, 1), bi(0)}},
@@ -878,7 +918,7 @@ func genBls(rng *rand.Rand, quick bool) []*blsCase {
 	}
 	// the flag circuit: accumulator = the pairs before the last one
 	pr(q, "mlfe", "n=2,product=1,flag=1", "in", 2, trueP, QQ, 1, "")
-	pr(q, "mlfe", "n=2,product!=1,flag=0", "in", 2, falseP, QQ, 0, "")
+	pr(th, "mlfe", "n=2,product!=1,flag=0", "in", 2, falseP, QQ, 0, "")
 	pr(q, "mlfe", "n=3,product!=1,flag=1(must-reject)", "in", 3, false3, QQQ, 1, "")
 	pr(th, "mlfe", "n=1,product!=1,flag=0", "in", 1, trueP[:1], QQ[:1], 0, "")
 	pr(th, "mlfe", "n=1,product!=1,flag=1(must-reject)", "in", 1, trueP[:1], QQ[:1], 1, "")
@@ -896,13 +936,13 @@ func genBls(rng *rand.Rand, quick bool) []*blsCase {
 	pr(th, "mlfe", "n=1,Q-on-twist-outside-subgroup,flag=0(must-reject)", "in", 1, pts(P1), pts(T1), 0, "")
 	pr(th, "mlfe", "n=1,Q-off-twist,flag=0(must-reject)", "in", 1, pts(P1), pts(offTwistG2(Q1)), 0, "")
 	pr(q, "mlmul", "n=1,expected=conj(native-MillerLoop)", "in", 1, trueP[:1], QQ[:1], 0, "")
-	pr(q, "mlmul", "n=1,expected=conj(native-MillerLoop)*e(G1,G2)(must-reject)", "in", 1, trueP[:1], QQ[:1], 0, "wrong-expected")
+	pr(th, "mlmul", "n=1,expected=conj(native-MillerLoop)*e(G1,G2)(must-reject)", "in", 1, trueP[:1], QQ[:1], 0, "wrong-expected")
 	pr(th, "mlmul", "n=2,expected=accumulator*conj(native-MillerLoop)", "in", 2, trueP, QQ, 0, "")
 	pr(th, "mlmul", "n=3,expected=accumulator*conj(native-MillerLoop)", "in", 3, false3, QQQ, 0, "")
 	pr(q, "mlmul", "n=1,Q=scaled-subgroup-point(4x,8y)-off-twist(must-reject)", "in", 1, pts(P1), pts(S2), 0, "")
 	pr(th, "mlmul", "n=1,Q-on-twist-outside-subgroup(must-reject)", "in", 1, pts(P1), pts(T1), 0, "")
 	// the precompile itself
-	pr(q, "pair", "n=2,product=1", "in", 2, trueP, QQ, 0, "")
+	pr(th, "pair", "n=2,product=1", "in", 2, trueP, QQ, 0, "")
 	pr(q, "pair", "n=3,product=1", "in", 3, true3, QQQ, 0, "")
 	pr(th, "pair", "n=2,product!=1(must-reject)", "in", 2, falseP, QQ, 0, "")
 	pr(th, "pair", "n=3,product!=1(must-reject)", "in", 3, false3, QQQ, 0, "")
@@ -927,11 +967,14 @@ func genBls(rng *rand.Rand, quick bool) []*blsCase {
 
 type blsPlan struct {
 	cases []*blsCase
+	quick bool
 	emu   *emuPlan // BLS12-381 descriptor of the emulated family (hint inputs of the G1 MSM)
+	mu    sync.Mutex
+	redo  []*blsCase // cases of batches that failed as a whole
 }
 
 func planBls(r *vcore.Run) *blsPlan {
-	pl := &blsPlan{cases: genBls(r.Rand("evmbls"), r.Quick())}
+	pl := &blsPlan{cases: genBls(r.Rand("evmbls"), r.Quick()), quick: r.Quick()}
 	if f := os.Getenv("VERIF_C16_BLS_KIND"); f != "" { // dev switch: restrict to some gadgets / classes
 		var keep []*blsCase
 		for _, c := range pl.cases {
@@ -967,10 +1010,38 @@ func (pl *blsPlan) probes() []hintProbe {
 	return out
 }
 
+// batchMs: estimated serial cost of a batch (ms of a warmed-up worker; on the
+// loaded machine a batch takes 3–6 times as long).  Quick: four batches
+// (add+membership+map, msm, pairing in two), the one-time initialisation is paid
+// four times; thorough: about a dozen, all well below the pool's 5 min watchdog.
+func (pl *blsPlan) batchMs() int {
+	if pl.quick {
+		return 12000
+	}
+	return 15000
+}
+
+var blsWarmMs = map[string]int{"g1add": 25, "g2add": 30, "isong1": 250, "isong2": 300, "mapg1": 200, "mapg2": 700,
+	"g1msm": 600, "g2msm": 1100, "mlmul": 1300, "mlfe": 1300, "pair": 1300}
+
 func (pl *blsPlan) tasks(r *vcore.Run, stuck map[string]bool) []task {
 	var ts []task
+	// batches by gadget group, in list order
+	group := map[string]string{"g1add": "add,membership,map", "g2add": "add,membership,map", "isong1": "add,membership,map", "isong2": "add,membership,map",
+		"mapg1": "add,membership,map", "mapg2": "add,membership,map", "g1msm": "msm", "g2msm": "msm", "mlmul": "pairing", "mlfe": "pairing", "pair": "pairing"}
+	open := map[string]*blsBatch{}
+	openMs := map[string]int{}
+	var order []string
+	flush := func(gname string) {
+		b := open[gname]
+		if b == nil || len(b.Cases) == 0 {
+			return
+		}
+		cost := openMs[gname] * 5 // the pool sorts by cost (ms on a loaded machine)
+		ts = append(ts, task{fam: "evmbls", data: b, cost: cost, done: func(o outcome) { pl.batchDone(r, b, o) }})
+		open[gname], openMs[gname] = nil, 0
+	}
 	for _, c := range pl.cases {
-		c := c
 		skip := false
 		for _, p := range pl.hintProbes(c) {
 			skip = skip || stuck[probeKey(p)]
@@ -982,9 +1053,73 @@ func (pl *blsPlan) tasks(r *vcore.Run, stuck map[string]bool) []task {
 			r.Count("evmbls.skipped(hint-nontermination-predicted-by-screen)", 1)
 			continue
 		}
-		ts = append(ts, task{fam: "evmbls", data: c, cost: c.Cost, done: func(o outcome) { judgeBls(r, c, o) }})
+		gname := group[c.Kind]
+		ms := blsWarmMs[c.Kind]
+		if c.N > 1 && (c.Kind == "g1msm" || c.Kind == "g2msm" || c.Kind == "pair") {
+			ms *= c.N
+		}
+		if open[gname] != nil && openMs[gname]+ms > pl.batchMs() {
+			flush(gname)
+		}
+		if open[gname] == nil {
+			open[gname] = &blsBatch{}
+			order = append(order, gname)
+		}
+		open[gname].Cases = append(open[gname].Cases, c)
+		openMs[gname] += ms
 	}
+	for _, gname := range order {
+		flush(gname)
+	}
+	r.Count("evmbls.batches", len(ts))
 	return ts
+}
+
+// batchDone judges the cases of a batch; a batch that failed as a whole (worker
+// died, watchdog, bad answer) is taken apart and its cases run one by one after
+// the pool has drained (rerunFailedBatches).
+func (pl *blsPlan) batchDone(r *vcore.Run, b *blsBatch, o outcome) {
+	var outs []outcome
+	if o.Crash == "" && !o.Hang && o.Panic == "" && o.Vals["batch"] != "" {
+		if err := json.Unmarshal([]byte(o.Vals["batch"]), &outs); err != nil || len(outs) != len(b.Cases) {
+			outs = nil
+		}
+	}
+	if outs == nil {
+		if len(b.Cases) == 1 {
+			judgeBls(r, b.Cases[0], o)
+			return
+		}
+		r.Count("evmbls.batch-failed-as-a-whole(cases-repeated-one-by-one)", 1)
+		pl.mu.Lock()
+		pl.redo = append(pl.redo, b.Cases...)
+		pl.mu.Unlock()
+		return
+	}
+	if ms, err := strconv.Atoi(o.Vals["cpu_ms"]); err == nil {
+		r.Count("evmbls.worker-cpu-ms(user+sys,all-batches)", ms)
+		r.Count("evmbls.worker-cpu-ms.batch-starting-with:"+blsGadget[b.Cases[0].Kind], ms)
+	}
+	for i, c := range b.Cases {
+		judgeBls(r, c, outs[i])
+	}
+}
+
+// rerunFailedBatches: see batchDone.
+func (pl *blsPlan) rerunFailedBatches(r *vcore.Run, workers int) {
+	pl.mu.Lock()
+	redo := pl.redo
+	pl.redo = nil
+	pl.mu.Unlock()
+	if len(redo) == 0 {
+		return
+	}
+	var ts []task
+	for _, c := range redo {
+		b := &blsBatch{Cases: []*blsCase{c}}
+		ts = append(ts, task{fam: "evmbls", data: b, cost: c.Cost, done: func(o outcome) { pl.batchDone(r, b, o) }})
+	}
+	runPool(r, ts, workers, 5*time.Minute)
 }
 
 func judgeBls(r *vcore.Run, c *blsCase, o outcome) {
